@@ -215,6 +215,15 @@ class AstToDjangoQVisitor(visitor.NodeVisitor):
 
     def visit_Compare(self, node: ast.Compare) -> lookups.Lookup:
         ":meta private:"
+        if (
+            isinstance(node.left, ast.Null)
+            and not isinstance(node.right, ast.Null)
+            and type(node.comparator) in COMPARISON_FLIP
+        ):
+            # 'null eq x' means the same as 'x eq null':
+            flipped = COMPARISON_FLIP[type(node.comparator)]()
+            return self.visit_Compare(ast.Compare(flipped, node.right, node.left))
+
         lhs = self.visit(node.left)
 
         # Special case: comparison to NULL => isnull=True/False
